@@ -78,6 +78,12 @@ void adapter_exec(Ev *ev)
         for (size_t i = 0; i < n; i++) src[i] = (unsigned char)ev->a[1 + i];
         rc = byte_buffer_add(&bb, src, n);
         xfree(src);
+    } else if (ev_is(ev, "addself")) {
+        /* addself a b: the octets to append are taken from the buffer's own filled region: off = a mod (used + 1),
+         * n = b mod (used - off + 1), so off + n <= used and there is no overlap with the destination behind the filled
+         * region - e.g. queueing a header once more */
+        size_t off = (size_t)ev->a[0] % (bb.used + 1), n = (size_t)ev->a[1] % (bb.used - off + 1);
+        rc = byte_buffer_add(&bb, bb.data + off, n);
     } else if (ev_is(ev, "addhuge")) {
         /* size_t overflow probe: length SIZE_MAX - a1 with a 1-octet source. Must be refused. */
         unsigned char one = 0;
